@@ -80,6 +80,7 @@ class _R:
     """what the parent needs of a tlc.Result"""
     def __init__(self, r):
         self.distinct, self.generated, self.wall, self.timed_out = r.distinct, r.generated, r.wall, r.timed_out
+        self.broken = bool(r.errors) or r.timed_out        # TLC stopped early (out of memory, killed): verdicts may be missing
 
 
 def _batch_job(chunk, w, monitors, max_level, timeout, max_alloc, workers):
@@ -91,7 +92,7 @@ def _batch_job(chunk, w, monitors, max_level, timeout, max_alloc, workers):
     return (None if r is None else _R(r)), back
 
 
-def run(items, stats, monitors=True, max_level=9000, batch=400, timeout=900, max_alloc=256):
+def run(items, stats, monitors=True, max_level=9000, batch=400, timeout=900, max_alloc=256, _retry=True):
     """Run items through Refine in batches per word size.  Fills it.result / it.skip and stats."""
     by_w = collections.defaultdict(list)
     for it in items:
@@ -118,6 +119,28 @@ def run(items, stats, monitors=True, max_level=9000, batch=400, timeout=900, max
             if feats is not None:
                 it.meta['features'] = feats
             it.meta.update(extra)
+    # a batch that TLC did not finish (out of memory on an oversubscribed machine, timeout): its unjudged cases get one
+    # more chance in small batches, one at a time
+    if _retry:
+        again = [it for (w, chunk), (r, back) in zip(chunks, results) if r is not None and r.broken
+                 for it in chunk if not it.skip and it.result is None]
+        if again:
+            stats.skipped['retried_after_incomplete_batch'] += len(again)
+            sub = Stats()
+            old_par = os.environ.get('HV_PAR')
+            os.environ['HV_PAR'] = '1'
+            try:
+                run(again, sub, monitors=monitors, max_level=max_level, batch=100, timeout=timeout, max_alloc=max_alloc, _retry=False)
+            finally:
+                if old_par is None:
+                    os.environ.pop('HV_PAR', None)
+                else:
+                    os.environ['HV_PAR'] = old_par
+            stats.batches += sub.batches
+            stats.states += sub.states
+            stats.transitions += sub.transitions
+            stats.tlc_wall += sub.tlc_wall
+    for (w, chunk), (r, back) in zip(chunks, results):
         if True:
             if r is None:
                 for it in chunk:
